@@ -769,6 +769,58 @@ def run_witness(binpath, w):
             return {"cmd": "check --fix <%d programs>" % len(progs), "exit": 0, "stdout": "", "stderr": "",
                     "reproduced": bool(bad_items), "why": "; ".join(bad_items[:4])[:1800], "n_inputs": len(progs),
                     "failing_inputs": [progs[int(re.match(r"program (\d+)", b).group(1))] for b in bad_items][:6]}
+        elif kind == "definition-positions":
+            # C23 bounded stand-in: each source is written to a file as it is (a leading byte order mark included);
+            # go-to-definition (`garden reftest-position FILE OFFSET`) is asked at the start of every identifier;
+            # every Position printed for that file must lie inside it, on char boundaries, with line/column equal
+            # to those of its offsets
+            bad_items, failing, n_pos = [], [], 0
+            for idx, src_ in enumerate(w["input"]):
+                b = src_.encode("utf-8")
+                f = os.path.join(tmpdir, "d%d.gdn" % idx)
+                with open(f, "wb") as fh:
+                    fh.write(b)
+                offs = [m.start() for m in re.finditer(rb"[A-Za-z_][A-Za-z0-9_]*", b)]
+                for o in offs:
+                    try:
+                        pr = subprocess.run([binpath, "reftest-position", f, str(o)], capture_output=True, text=True, timeout=30, cwd=tmpdir)
+                    except subprocess.TimeoutExpired:
+                        bad_items.append("program %d offset %d: timeout" % (idx, o))
+                        continue
+                    if pr.returncode == 101 or "panicked at" in pr.stderr:
+                        bad_items.append("program %d offset %d: panicked: %s" % (idx, o, pr.stderr[-160:]))
+                        failing.append(src_)
+                        continue
+                    for pos in _jsons(pr.stdout):
+                        if not (isinstance(pos, dict) and {"start_offset", "end_offset", "line_number", "column"} <= set(pos)):
+                            continue
+                        if not str(pos.get("path", "")).endswith("d%d.gdn" % idx):
+                            continue
+                        n_pos += 1
+                        so, eo = pos["start_offset"], pos["end_offset"]
+                        why = None
+                        if not (0 <= so <= eo <= len(b)):
+                            why = "offsets %d..%d outside the file (%d bytes)" % (so, eo, len(b))
+                        else:
+                            for o_ in (so, eo):
+                                if o_ < len(b) and (b[o_] & 0xC0) == 0x80:
+                                    why = "offset %d is inside a character" % o_
+                            exp = []
+                            for o_ in (so, eo):
+                                ls = b.rfind(b"\n", 0, o_) + 1
+                                exp.append((b.count(b"\n", 0, o_), o_ - ls))
+                            got = [(pos["line_number"], pos["column"]), (pos.get("end_line_number"), pos.get("end_column"))]
+                            if why is None and got != exp:
+                                why = "offsets %d..%d are line/column %r but the position says %r" % (so, eo, exp, got)
+                            if why is None and not re.fullmatch(rb"[A-Za-z_][A-Za-z0-9_]*", b[so:eo]):
+                                why = "offsets %d..%d hold %r, not a name" % (so, eo, b[so:eo][:30])
+                        if why:
+                            bad_items.append("program %d, definition asked at offset %d: %s" % (idx, o, why))
+                            failing.append(src_)
+            if n_pos < len(w["input"]) and not bad_items:
+                bad_items.append("only %d definition positions reported for %d programs" % (n_pos, len(w["input"])))
+            return {"cmd": "reftest-position <%d programs>" % len(w["input"]), "exit": 0, "stdout": "", "stderr": "",
+                    "reproduced": bool(bad_items), "why": "; ".join(bad_items[:4])[:1500], "n_inputs": len(w["input"]), "failing_inputs": failing[:3]}
         elif kind == "session-positions":
             # C23 bounded stand-in: each source is evaluated in a JSON session and raises a runtime error
             # at a chosen token; every full Position in the answers (offsets, lines, byte columns) must
